@@ -41,6 +41,7 @@ TOL_HF = 1e-9
 TOL_EISO = 1e-9
 TOL_EMO = 1e-8
 TOL_GAP = 1e-10
+TOL_PAIRING = 1e-7   # x max(1, max|F|): residual of F c_k = e_k c_k (clean tree: 1e-14)
 TOL_ASC = 1e-9       # ties of degenerate levels may come out in either order at round-off level
 TOL_Q = 1e-10
 TOL_QSUM = 1e-9
@@ -248,6 +249,9 @@ def bundle(mol, es, sett, charges, mults, sp2_tol=None, do_fock=True):
         viol.append({"clause": "dipole-unit-constant", "mech": None,
                      "detail": {"factor": factor, "codata_e_angstrom_to_au": E_ANG_TO_AU_CODATA}})
     F = None
+    MO = None
+    if do_fock and method != "PM6" and torch.is_tensor(getattr(mol, "molecular_orbitals", None)):
+        MO = mol.molecular_orbitals.detach().cpu().numpy()
     if do_fock and method != "PM6":
         F = rebuild_fock(mol, mol.dm)
         mon["fock_rebuilds"] += 1
@@ -322,10 +326,26 @@ def bundle(mol, es, sett, charges, mults, sp2_tol=None, do_fock=True):
                 Fb = F[b] if s is None else F[b][s]
                 sub = Fb[np.ix_(idx, idx)]
                 w = np.linalg.eigvalsh(0.5 * (sub + sub.T))
-            if np.any(np.diff(ev) < -TOL_ASC):
+            if not np.all(np.diff(ev) >= -TOL_ASC):       # NaN-safe: a non-finite level violates
                 viol.append({"clause": "emo-not-ascending" + lab, "mech": None,
                              "detail": dict(wit, e_mo=ev.tolist(), nocc=nocc, eig_F=None if w is None else w.tolist(),
                                             gap=None if g_rep is None else float(g_rep))})
+            if w is not None and MO is not None:
+                # PAIRING: the reported energy e_k must belong to the reported orbital c_k (packed basis = the real
+                # orbitals in atom order), whatever order the package publishes them in: F[dm] c_k = e_k c_k
+                Cb = MO[b] if s is None else MO[b][s]
+                if Cb.shape[0] >= norb and Cb.shape[1] >= norb:
+                    c = Cb[:norb, :norb]
+                    resid = np.abs(sub @ c - c * ev[None, :]).max(axis=0)
+                    nrm = np.abs(np.linalg.norm(c, axis=0) - 1.0)
+                    scale = max(1.0, float(np.abs(sub).max()))
+                    mon["orbital_pairs_checked"] = mon.get("orbital_pairs_checked", 0) + norb
+                    val = max(float(np.max(resid)) / scale, float(np.max(nrm)) * 0.1) if np.all(np.isfinite(resid)) else float("nan")
+                    if upd("emo_orbital_pairing", val, TOL_PAIRING):
+                        k = int(np.nanargmax(resid)) if np.any(np.isfinite(resid)) else 0
+                        viol.append({"clause": "emo-orbital-pairing" + lab, "mech": None,
+                                     "detail": dict(wit, orbital=k, residual=float(resid[k]), tol=TOL_PAIRING * scale,
+                                                    e_mo=ev.tolist(), eig_F=w.tolist(), nocc=nocc)})
             if w is not None:
                 mon["emo_compared"] += 1
                 if upd("emo_vs_fock_eigs", np.abs(np.sort(ev) - w).max(), TOL_EMO):
